@@ -120,6 +120,15 @@ def main():
             shutil.copy(os.path.join(d, f), dst)
         else:
             shutil.copytree(os.path.join(d, f), os.path.join(dst, f), dirs_exist_ok=True)
+    prev_path = os.path.join(dst, "meta.json")
+    if "--skip-confirm" in args and os.path.exists(prev_path):
+        prev = json.load(open(prev_path)).get("evaluation", {})
+        merged = dict(prev)
+        merged.setdefault("first_pass", {"checks": prev.get("checks"), "detected": prev.get("detected")})
+        merged["checks"] = dict(prev.get("checks") or {}, **det) if set(det) != set(prev.get("checks") or {}) else det
+        merged["detected"] = report["detected"]
+        merged["after_strengthening"] = not (merged["first_pass"].get("detected"))
+        report = merged
     meta["evaluation"] = report
     json.dump(meta, open(os.path.join(dst, "meta.json"), "w"), indent=1)
     return 0
